@@ -1,12 +1,16 @@
 (* Properties_C08.v — a CONSTANT never changes after its definition.
-   PARTIAL: proved for the assignment channel (variables, elements, fields and dereferenced pointers all
-   reach the same store sequence): an attempt on a constant cell is an error and the state is unchanged.
-   The other writers (FOR header, INPUT, READFILE, GETRECORD, BYREF formals) test the same flag in Eval.v
-   and are compared with the implementation for every literal type and writer form.
-   Over the whole evaluator: the CONSTANT flag of a cell is permanent (no execution clears it, the cell never
-   disappears, its identifier is never given to another object), so every site that tests the flag keeps
-   rejecting the constant for the rest of the run.  Not proved: that every write site tests it (DESIGN.md). *)
-From PE2 Require Import Eval Lemmas_Store Lemmas_Out.
+   Proved over the whole evaluator, for every syntax tree (also trees no parser produces), every fuel and every outcome:
+   a constant cell of primitive type that belongs to an ordinary (non-record) context holds, after any block has run, the very
+   same cell -- name, type, flag, owner and VALUE (C08_constants_never_change).  'CONSTANT c = <literal>' executed in an ordinary
+   context creates such a cell (C08_constant_statement_creates_a_protected_cell), and the heap invariant the theorem needs holds in
+   the initial state of every run and is kept by every block (C08_invariant_holds_initially, C08_invariant_is_kept).
+   The guards are where the C++ has them -- assignment, FOR, INPUT, READFILE and GETRECORD test the flag of the cell they are
+   about to write; pointer assignment, record copy and whole-array copy have no test and are safe because of WHAT they write to
+   (a cell of pointer type; the cells of a record's private context; array elements) -- so the proof is a program logic over all
+   ten evaluation functions (Lemmas_ConstLogic.v, Lemmas_ConstEval.v, Lemmas_ConstCase_*.v, Lemmas_ConstThm.v): it fails to go
+   through if any write site loses its guard.  Also: an attempt on a constant cell through the assignment store sequence is an
+   error with the state unchanged, and the flag itself is permanent. *)
+From PE2 Require Import Eval Run Lemmas_Store Lemmas_Out Lemmas_DeepCopy Lemmas_ConstLogic Lemmas_ConstThm.
 
 Theorem C08_assignment_to_constant_no_effect : forall t c id v s cl,
   get_cell id s = (Ok cl, s) -> well_tagged v -> c_const cl = true ->
@@ -33,3 +37,33 @@ Proof.
   exists cl'. split; [exact E'|]. split; [congruence|exact H2].
 Qed.
 Print Assumptions C08_constant_flag_is_permanent.
+
+(* THE property: every later read of c yields v.  A CONSTANT cell of primitive type owned by an ordinary context is the same
+   cell after any block -- whatever the block is, however it ends *)
+Theorem C08_constants_never_change : forall ped repl lim fuel bl c s id cl, Inv s ->
+  nm_get id (s_cells s) = Some cl -> c_const cl = true -> prim_kind (dk (c_type cl)) = true -> plain_ctx s (c_owner cl) ->
+  nm_get id (s_cells (snd (run_block ped repl lim fuel bl c s))) = Some cl.
+Proof. exact protected_constant_unchanged. Qed.
+Print Assumptions C08_constants_never_change.
+
+Theorem C08_invariant_is_kept : forall ped repl lim fuel bl c s, Inv s ->
+  Inv (snd (run_block ped repl lim fuel bl c s)) /\ K s (snd (run_block ped repl lim fuel bl c s)).
+Proof. exact run_block_keeps_constants. Qed.
+Print Assumptions C08_invariant_is_kept.
+
+Theorem C08_invariant_holds_initially : forall stdin fs rnd, Inv (init_state stdin fs rnd).
+Proof. exact Inv_init. Qed.
+Print Assumptions C08_invariant_holds_initially.
+
+(* 'CONSTANT c = <literal>' in an ordinary context: the new cell is such a constant, entered under the name c *)
+Theorem C08_constant_statement_creates_a_protected_cell : forall ped repl lim f t v id c s r s',
+  is_literal v = true -> plain_ctx s c ->
+  ev_eval (evs_at ped repl lim (S (S f))) (NConst t v id) c s = (Ok r, s') ->
+  exists cl, nm_get (s_next s) (s_cells s') = Some cl /\ protected_cell s' cl /\ c_name cl = tval id /\
+             (exists cx, nm_get c (s_ctxs s') = Some cx /\ In (tval id, s_next s) (x_vars cx)).
+Proof. exact constant_statement_creates_a_protected_cell. Qed.
+Print Assumptions C08_constant_statement_creates_a_protected_cell.
+
+(* non-vacuity: the global context of the initial state is an ordinary context *)
+Example C08_global_context_is_ordinary : forall stdin fs rnd, plain_ctx (init_state stdin fs rnd) root_id.
+Proof. intros. exists global_ctx. split; [unfold init_state; cbn [s_ctxs]; apply nm_get_put_same|reflexivity]. Qed.
